@@ -6,6 +6,7 @@ CtorText(m, form) == IF form = "default" THEN m \o "()" ELSE IF m = "csv" THEN "
 StepOf(h) ==
   CASE h.a = "unban" -> <<[op |-> "unban", m |-> h.m, act |-> h]>>
     [] h.a = "clear" -> <<[op |-> "clearperm", act |-> h]>>
+    [] h.a = "settrust" -> <<[op |-> "settrust", ctx |-> h.c, on |-> h.on, act |-> h]>>
     [] h.a = "clone" -> <<[op |-> "clone", ctx |-> h.c, from |-> h.from, act |-> h]>>
     [] h.a = "import" -> <<[op |-> "exec", ctx |-> h.c, text |-> "import " \o h.m \o ";", act |-> h], [op |-> "dump", ctx |-> h.c]>>
     [] h.a = "importpath" -> <<[op |-> "exec", ctx |-> h.c, text |-> "import \"@MOD:" \o h.m \o "@\";", act |-> h], [op |-> "dump", ctx |-> h.c]>>
